@@ -167,7 +167,7 @@ class World:
         return cls._instance
 
     def __init__(self, streams=('bbb', 'tears', 'synirr', 'synoff', 'synnot', 'synenc'), users=True, writable_blobs=False, with_subs=True,
-                 propagate=False):
+                 propagate=False, mps=True):
         import logging
         logging.disable(logging.CRITICAL)
         from dashlive.server.app import create_app
@@ -177,7 +177,7 @@ class World:
         from passlib.context import CryptContext
         install_clock()
         self.models = models
-        self.tmp = Path(tempfile.mkdtemp(prefix='verif-world-', dir='/dev/shm'))
+        self.tmp = Path(tempfile.mkdtemp(prefix='world-', dir=str(core.run_dir())))
         self.blob_folder = self.tmp / 'blobs'
         self.blob_folder.mkdir()
         (self.tmp / 'uploads').mkdir()
@@ -217,6 +217,8 @@ class World:
         self._on_exc = _on_exc
         got_request_exception.connect(_on_exc, self.app, weak=False)
 
+        # No application context stays pushed while requests are served: Flask would reuse it for every
+        # request and flask.g would leak from one request into the next.
         self.ctx = self.app.app_context()
         self.ctx.push()
         db = models.db
@@ -235,7 +237,14 @@ class World:
                 self.add_synth_stream(s)
             else:
                 self.add_fixture_stream(s, with_subs=with_subs, copy=writable_blobs)
+        if mps and 'bbb' in streams and 'tears' in streams:
+            self.add_mps('testmps', [
+                dict(pid='p1', stream='bbb', start=4, duration=32, tracks=[('video', 1), ('audio', 2)]),
+                dict(pid='p2', stream='tears', start=8, duration=44, tracks=[('video', 1), ('audio', 2)]),
+            ])
         db.session.remove()
+        self.ctx.pop()
+        self.ctx = None
         self.base_snapshot = self.snapshot()
 
     # -- store -----------------------------------------------------------
@@ -322,6 +331,26 @@ class World:
         self.stream_names.append(name)
         return stream
 
+    def add_mps(self, name, periods, title=None):
+        """periods: list of dict(pid, stream, start (s), duration (s), tracks=[(content_type, track_id)])"""
+        models = self.models
+        from dashlive.mpeg.dash.content_role import ContentRole
+        mps = models.MultiPeriodStream(name=name, title=title or f'mps {name}')
+        models.db.session.add(mps)
+        for idx, p in enumerate(periods, start=1):
+            stream = models.Stream.get(directory=p['stream'])
+            prd = models.Period(pid=p['pid'], parent=mps, ordering=idx, stream=stream,
+                                start=datetime.timedelta(seconds=p['start']),
+                                duration=datetime.timedelta(seconds=p['duration']))
+            models.db.session.add(prd)
+            for ctype, tid in p['tracks']:
+                ct = models.ContentType.get(name=ctype)
+                role = ContentRole.MAIN if ctype != 'text' else ContentRole.SUBTITLE
+                models.db.session.add(models.AdaptationSet(period=prd, track_id=tid, role=role.value,
+                                                           content_type=ct))
+        models.db.session.commit()
+        return mps
+
     def _add_keys(self):
         models = self.models
         from dashlive.drm.playready import PlayReady
@@ -339,11 +368,15 @@ class World:
                     models.db.session.add(models.Key(hkid=kid.hex, hkey=key, computed=True))
         models.db.session.commit()
 
+    def appctx(self):
+        return self.app.app_context()
+
     def snapshot(self):
         db = self.models.db
-        db.session.remove()
-        raw = db.engine.raw_connection()
-        data = raw.driver_connection.serialize()
+        with self.app.app_context():
+            db.session.remove()
+            raw = db.engine.raw_connection()
+            data = raw.driver_connection.serialize()
         blobs = {}
         for root, dirs, files in os.walk(self.blob_folder, followlinks=False):
             for f in files:
@@ -360,9 +393,10 @@ class World:
     def restore(self, snap):
         data, blobs, n = snap
         db = self.models.db
-        db.session.remove()
-        raw = db.engine.raw_connection()
-        raw.driver_connection.deserialize(data)
+        with self.app.app_context():
+            db.session.remove()
+            raw = db.engine.raw_connection()
+            raw.driver_connection.deserialize(data)
         self.secrets.n = n
         # blob tree
         want = set(blobs)
@@ -415,7 +449,6 @@ class World:
                 timeout=10.0, content_type=None, base_url='http://localhost') -> Resp:
         c = client or self.app.test_client()
         self.last_exc = None
-        self.models.db.session.remove()
         t0 = _real_time()
         kwargs = {}
         if headers:
@@ -443,10 +476,6 @@ class World:
         finally:
             signal.setitimer(signal.ITIMER_REAL, 0)
             signal.signal(signal.SIGALRM, old)
-        try:
-            self.models.db.session.rollback()
-        except Exception:
-            pass
         return resp
 
     def get(self, url, **kw) -> Resp:
@@ -462,10 +491,6 @@ class World:
         return c, js
 
     def close(self):
-        try:
-            self.ctx.pop()
-        except Exception:
-            pass
         shutil.rmtree(self.tmp, ignore_errors=True)
 
 
